@@ -42,7 +42,7 @@ def plan(tier, seed):
     cfgs.append(dict(kind="tr", cir=8, cbs=2, pir=None, pbs=4, N=n, gaps=["S", 1, 2, 8], sizes=[1, 2, 4], order=0))
     cfgs.append(dict(kind="tr", cir=8, cbs=3, pir=None, pbs=2, N=n, gaps=["S", 1, 2, 8], sizes=[1, 2, 4], order=0))
     # every configuration once more with long fixed workloads (state that only breaks after hundreds of packets)
-    nlong = explore.add_long(cfgs, 200 if quick else 600)
+    nlong = explore.add_long(cfgs, 200 if quick else 600, burst=400)
     ndebug = explore.add_debug_variants(cfgs)      # the same with every element constructed with debug=True
     return {"cfgs": cfgs, "budget": None,
             "bound": ("%d long fixed workloads (periodic arrival patterns); %d configurations repeated with debug=True; " % (nlong, ndebug)) + ("N<=%d; TokenBucket rate {8,16} x bucket {1,2,3} x peak {None,16,32}; TwoRate CIR 8, CBS {2,3}, PIR {None,16}, PBS {2,4}" % n)}
